@@ -763,6 +763,11 @@ def run(chk):
 
     if chk.tier == "thorough":
         thorough(chk)
+    # the map views of a collection (`as_map()`: sval / serde / Debug) enumerate through for_each: each step's outcome is handed on, so a view either
+    # shows every pair or fails - it never shows a map with a pair missing
+    common.results_inspected_rule(
+        chk, P, "C02.R1:views-propagate", "no step of a map view of a property collection (AsMap's sval / serde / fmt impls) has its Result discarded",
+        lambda b: b.crate == "emit_core" and "AsMap<" in b.key and "::tests::" not in b.key, {}, 6)
     common.wrapper_family_rule(chk, P, "C02", "emit_core::props::Props", 2, forward=False, allow={
         ("alloc::boxed::Box<", "get"): "the default get enumerates the boxed collection's own for_each (coherent by construction)",
         ("alloc::boxed::Box<", "is_unique"): "the default (false) only disables a shortcut",
